@@ -52,6 +52,12 @@ pub fn race_world() -> WorldSpec {
     w.push(Entry::link("outside/landing/b", "DECOY-BODY-landing-b"));
     w.push(Entry::link("outside/landing/c", "DECOY-BODY-landing-c"));
     w.push(Entry::link("outside/landing/leaf", "DECOY-BODY-landing-leaf"));
+    // a sibling of the root whose *name* is the root's name plus the decoration d_path() appends
+    // to unlinked inodes: a path comparison that strips " (deleted)" would take it for the root
+    w.push(Entry::file("root (deleted)/etc/passwd", "DECOY-DELETED-SIBLING-PASSWD"));
+    w.push(Entry::file("root (deleted)/file", "DECOY-DELETED-SIBLING-FILE"));
+    w.push(Entry::link("root (deleted)/b-link", "DECOY-BODY-deleted-sibling-b-link"));
+    w.push(Entry::dir("root (deleted)/etc-target"));
     w
 }
 
@@ -76,6 +82,10 @@ pub fn race_mutations() -> Vec<(Mutation, Option<Mutation>)> {
     ];
     for (src, n) in [("root/a/b", "b"), ("root/a/b/c", "c"), ("root/a", "a"), ("root/a/b/c/d", "d")] {
         let dst = format!("outside/landing/moved-{n}");
+        v.push((Mutation::Rename { src: src.into(), dst: dst.clone() }, Some(Mutation::Rename { src: dst, dst: src.into() })));
+    }
+    for (src, n) in [("root/a/b", "b"), ("root/a/b/c", "c"), ("root/a", "a")] {
+        let dst = format!("root (deleted)/{n}");
         v.push((Mutation::Rename { src: src.into(), dst: dst.clone() }, Some(Mutation::Rename { src: dst, dst: src.into() })));
     }
     for (path, target) in [
